@@ -216,9 +216,14 @@ def _filter_inv(elig):
     return inv
 
 
-c.loop("for#5", invariant=_filter_inv(lambda v, p: s0(p) == _optval(v.sample_chosen)), types={"result": T_plates})
-c.loop("for#6", invariant=_filter_inv(
-    lambda v, p: z3.And(z3.Not(z3.Select(v.sample_ids_with_insufficient_plates.dom, s0(p))),
-                        z3.Not(z3.Select(v.n_plates_already_selected_per_sample.dom, s0(p))))),
-    use=lambda v: [cnt_member(v.unobserved_plates.seq.cols, v.unobserved_plates.seq.length, v.it)],
-    types={"result": T_plates})
+def _elig_either(v, p):
+    """which plates the result collects: the two filter loops sit in the two branches of `if sample_chosen is not None`; the criterion is
+    written as ONE expression selected by that test, so the invariant does not depend on which branch comes first in the source"""
+    restrict = s0(p) == _optval(v.sample_chosen)
+    open_new = z3.And(z3.Not(z3.Select(v.sample_ids_with_insufficient_plates.dom, s0(p))), z3.Not(z3.Select(v.n_plates_already_selected_per_sample.dom, s0(p))))
+    return z3.If(_isnone(v.sample_chosen), open_new, restrict)
+
+
+for _k in ("for#5", "for#6"):
+    c.loop(_k, invariant=_filter_inv(_elig_either), use=lambda v: [cnt_member(v.unobserved_plates.seq.cols, v.unobserved_plates.seq.length, v.it)],
+           types={"result": T_plates})
